@@ -594,6 +594,9 @@ func (r *lsmRun) program(p lsmProfile) {
 
 // scripted regression programs, run before the random ones
 var lsmScripts = map[string][]string{
+	// the bottom level grows past the base-level size (moves go to L5), then shrinks again once deletes reach it:
+	// the planner's own base level drops back to L6 while L5 still holds the older copy of k
+	"base_level_drop_plain": {"bulk 40", "rotate", "flush", "rmove", "drainl 6", "read", "bulkdel 40", "rotate", "flush", "rmove", "drainl 5", "put k 1", "rotate", "flush", "rmove", "read", "regular 5", "read", "put k 2", "rotate", "flush", "rmove", "read"},
 	// the highest versions belong to expired entries that a compaction rewrites as stale: reopen must still seed the oracle above them
 	"ttl_compact_reopen": {"commit", "commit", "commit_exp", "commit_exp", "commit_exp", "rotate", "flush", "move", "drain", "read", "reopen", "read", "commit", "read"},
 	// three L0 tables, the middle one disjoint from the first: an L0 move must take an oldest-first prefix
@@ -641,6 +644,30 @@ func (r *lsmRun) script(steps []string, plain bool) {
 			fmt.Sscan(f[2], &ver)
 			v := bytes.Repeat([]byte(f[1]+f[2]+"|"), 900*1024/(len(f[1])+len(f[2])+1))
 			_ = r.put(kv.CFDefault, []byte(f[1]), ver, v, false, false)
+		case "bulk", "bulkdel":
+			var n int
+			fmt.Sscan(f[1], &n)
+			for i := 0; i < n; i++ {
+				k := []byte(fmt.Sprintf("x%02d", i))
+				if f[0] == "bulkdel" {
+					_ = r.put(kv.CFDefault, k, 0, nil, true, true)
+				} else {
+					_ = r.put(kv.CFDefault, k, 0, bytes.Repeat([]byte(fmt.Sprintf("x%02d|", i)), 900*1024/4), false, true)
+				}
+			}
+		case "rmove":
+			// the planner's own base level (no direction from the harness)
+			r.compactOnce(0, 0, 0)
+			maint++
+		case "drainl", "regular":
+			var lvl int
+			fmt.Sscan(f[1], &lvl)
+			mode := int(compact.IngestDrain)
+			if f[0] == "regular" {
+				mode = int(compact.IngestNone)
+			}
+			r.compactOnce(lvl, mode, 0)
+			maint++
 		case "rotate":
 			r.rotate()
 			maint++
@@ -674,7 +701,7 @@ func runScriptLsm(c *corr.Ctx, name string, plain bool) {
 		panic(err)
 	}
 	defer os.RemoveAll(dir)
-	r := &lsmRun{dir: dir, engine: "skiplist", bigMem: name == "hot_key", touched: map[string]map[uint64]bool{}, next: map[string]uint64{}, c: c, now: uint64(time.Now().Unix())}
+	r := &lsmRun{dir: dir, engine: "skiplist", bigMem: name == "hot_key" || name == "base_level_drop_plain", touched: map[string]map[uint64]bool{}, next: map[string]uint64{}, c: c, now: uint64(time.Now().Unix())}
 	flushGate.setOpen(false)
 	r.open()
 	first := r.layout().Active.SegmentID
@@ -714,8 +741,12 @@ func runLsm(c *corr.Ctx) error {
 	if c.Prop == "C12" {
 		n = c.Scale(5, 400)
 	}
+	if only := os.Getenv("VERIF_SCRIPT"); only != "" {
+		runScriptLsm(c, only, strings.HasSuffix(only, "_plain"))
+		return nil
+	}
 	if plain {
-		for _, name := range []string{"l0_tie", "ingest_tie", "ingest_tie2", "drain_overlap_plain", "ingest_over_main_plain", "l0_prefix_plain"} {
+		for _, name := range []string{"l0_tie", "ingest_tie", "ingest_tie2", "drain_overlap_plain", "ingest_over_main_plain", "l0_prefix_plain", "base_level_drop_plain"} {
 			runScriptLsm(c, name, true)
 		}
 	} else if c.Prop == "C12" {
